@@ -154,6 +154,35 @@ def h_split_regions_tile(n_bins):
     return fn
 
 
+def h_processed_multiplicity(n):
+    """the real collect_reads_in_parallel of one chromosome (collector faked): the list of processed reads it hands to
+    collect_reads carries every record once - a read seen in two sub-regions twice, since its multiplicity decides whether the
+    duplicates are resolved; both memory modes and the --resume reload"""
+    import shutil
+    import tempfile
+    from props import c07_driver
+
+    def fn(g):
+        ids = ["read_%s" % "AB"[g.choice("record%d_read" % i, 2)] for i in range(n)]
+        hm = bool(g.bool("high_memory"))
+        resume = bool(g.bool("reload_with_resume"))
+        d = tempfile.mkdtemp(prefix="verif_c05_")
+        old = c07_driver.READ_IDS
+        c07_driver.READ_IDS = ids
+        try:
+            layer = c07_driver.Layer(d)
+            groups, processed = call(g, c07_driver.stage, d, False, layer, hm, True)
+            if resume and not hm:
+                groups, processed = call(g, c07_driver.stage, d, True, c07_driver.Layer(d), hm, True)
+        finally:
+            c07_driver.READ_IDS = old
+            shutil.rmtree(d, ignore_errors=True)
+        got = sorted((p if isinstance(p, str) else p.read_id) for p in processed)
+        g.check(got == sorted(ids), "the processed-read list of a chromosome has one entry per saved record (with multiplicity)",
+                detail={"records": ids, "handed_on": got, "high_memory": hm, "resume": resume})
+    return fn
+
+
 def instances(tier, seed):
     q = tier == "quick"
     A = "src.alignment_processor:"
@@ -179,8 +208,16 @@ def instances(tier, seed):
                             [A + "AlignmentCollector.process_genic", "src.alignment_info:AlignmentInfo.__init__", "src.common:get_read_blocks"],
                             "one BAM record following %s of locus %s (symbolic ends, flags, MAPQ, --no_secondary, --min_mapq) through process_genic" % (tid, locus),
                             weight=300, budget_s=1200))
-    # a read processed in several sub-regions yields identical records: exactly one survives (shared with C08)
+    out.append(Instance("processed_read_multiplicity", h_processed_multiplicity(3), ["src.dataset_processor:collect_reads_in_parallel",
+                                                                                       "src.dataset_processor:collect_assignment_info",
+                                                                                       "src.dataset_processor:load_assignment_info"],
+                        "3 records of 1-2 reads on one chromosome, default / --high_memory / --resume reload", weight=20))
     from props import c08
+    # ... and the verdicts reach both saved copies of such a read when the chromosome is loaded again (shared with C08)
+    for n in ((2,) if q else (2, 3)):
+        out.append(Instance("loader[n=%d]" % n, c08.h_loader(n), ["src.dataset_processor:ReadAssignmentLoader.get_next"],
+                            "%d saved alignments of one read, arbitrary verdict list" % n, weight=5 ** n))
+    # a read processed in several sub-regions yields identical records: exactly one survives (shared with C08)
     for n in ((3,) if q else (3, 4)):
         out.append(Instance("dedup[n=%d]" % n, c08.h_resolve(n, 1, False), ["src.multimap_resolver:MultimapResolver.find_duplicates",
                                                                       "src.multimap_resolver:MultimapResolver.filter_assignments"],
